@@ -208,6 +208,8 @@ FailTR(h, st, ev) ==
             Sel(ev.best = 0 \/ ev.k # ev.best, "C18.replace")
        \cup Sel(ev.exc # "none" \/ (ev.frec = ev.fval /\ ev.fval = st.lastOut0
                                     /\ SamePoint(ev.x, st.lastXin)), "C12.recorded")
+       \* every model (objective and each constraint) receives exactly one update per replacement
+       \cup Sel(ev.exc # "none" \/ ev.nupd = ev.nmodels, "C12.generation")
     [] ev.e = "MInit" ->   \* the initial interpolation set: slot k holds the k-th sampled point and its value
             Sel(/\ Len(ev.pts) = Len(st.initX) /\ Len(ev.fvals) = Len(st.initOut)
                 /\ \A k \in DOMAIN ev.pts : SamePoint(ev.pts[k], st.initX[k]) /\ ev.fvals[k] = st.initOut[k],
